@@ -1178,13 +1178,13 @@ func parsePageSelectors(rule pa.QualifiedRule) (out []pageSelector) {
 					}
 				case pa.FunctionBlock:
 					tokens = tokens[1:]
-					if firstToken.Name != "nth" {
+					if utils.AsciiLower(firstToken.Name) != "nth" {
 						return nil
 					}
 					var group []pa.Token
 					nth := firstToken.Arguments
 					for i, argument := range firstToken.Arguments {
-						if ident, ok := argument.(pa.Ident); ok && ident.Value == "of" {
+						if ident, ok := argument.(pa.Ident); ok && utils.AsciiLower(ident.Value) == "of" {
 							nth = (firstToken.Arguments)[:(i - 1)]
 							group = (firstToken.Arguments)[i:]
 						}
